@@ -45,6 +45,14 @@ CHECKS.update({
    "For every operation, archive state and listing order, a fault of each kind is injected at each I/O call index of the never-faulted run, and for each of those every second fault in the re-run; each history ends with a fault-free re-run compared against the never-faulted run. All histories within the bound (2 faults) are enumerated.",
    "Faults are injected at the fileIO seam via the build-tagged wrappers; torn writes leave a prefix. Listing-order choice covers 3 of the n! orders.", "DESIGN.md 3/C18"),
 })
+CHECKS.update({
+ "C07": form_b("Both coders x every small (d,p) x every subset of missing data shards x every subset of missing parity shards x shard lengths x goroutine counts, plus a structured large code whose 2-erasure systems include the construction's singular pairs, and the documented limits; each reconstruction judged by the reference determinant of the system the statement names (lowest available rows x missing columns).",
+   "Trusted base: ref/gf16, ref/lin. Shard bytes are seed-perturbed patterns; codes beyond (8,6) only through the structured family.", "DESIGN.md 3/C07"),
+ "C09": form_b("For every dispatch path (SSSE3 asm, scalar asm with the dispatch flag forced off, portable Go, little-endian cast path, word-slice kernels, and the real non-amd64 dispatch in a GOARCH=386 build run as extra workers) the sweep over every constant x every word value is complete; shapes enumerate every even length up to 200 plus lengths around 2^16 and 2^17 at every alignment pair, with buffers carved against PROT_NONE guard pages and canaries so that any out-of-bounds access is observed.",
+   "Trusted base: ref/gf16; guard pages + debug.SetPanicOnFault; the hook that forces the dispatch flag. No real CPU without SSSE3 and no big-endian host.", "DESIGN.md 3/C09"),
+ "C11": form_b("Every n x n matrix over small alphabets (n<=4, up to 3^16 in thorough), every permutation (x diagonal) up to n=7, structured families for n up to 100/300 with the singular row / needed swap / zero column at every position; Inverse, RowReduceForInverse and Times judged by a reference determinant/adjugate (small) or reference elimination and products (large); operands compared before/after.",
+   "Trusted base: ref/lin + ref/gf16. Dense random-looking matrices above n=4 only as structured families.", "DESIGN.md 3/C11"),
+})
 NOT_YET = "check not built yet in this round (work in progress; see DESIGN.md section 3 for the planned model-checking harness)"
 
 def main():
